@@ -18,7 +18,7 @@ INVARIANTS = ["WellFormed", "DefSensitive", "DefaultsAreDefaults", "ExitIffLibra
 # The implementation-shaped layer transcribes the tree as read: cli/spec.py:inspect accepts --measurement and calls
 # ws.get_measurement() / ws.model() without it.  Once the option is forwarded in /repo (proposed fix
 # c19_inspect_measurement.diff) set this to True: ImplForwardsAll and ImplSensitive are then asserted everywhere.
-INSPECT_FORWARDS_MEASUREMENT = False
+INSPECT_FORWARDS_MEASUREMENT = True
 
 
 def S(*xs):
